@@ -140,12 +140,23 @@ class Spec:
             return []  # every continuation is in the same known-finding class; nothing further is decidable
         nr, nc = len(st.grid), len(st.grid[0])
         evs = []
-        if len(st.rects) < self.max_rects and nr * nc <= 25:
-            free = [x for x in all_rects(nr, nc) if all(disjoint(x, y) for y in st.rects)]
+        known = list(st.rects)
+        if st.mode == "consistency":
+            # after a cut-through edit the model no longer knows the rectangle set (the statement does not fix it):
+            # legal further merges are those disjoint from the rectangles the implementation itself reports
+            t = st.doc.sheets[0].tables[0]
+            known = []
+            for r in range(t.num_rows):
+                for c in range(t.num_cols):
+                    cell = t.cell(r, c)
+                    if cell.is_merged and cell.size:
+                        known.append((r, c, r + cell.size[0] - 1, c + cell.size[1] - 1))
+        if len(known) < self.max_rects and nr * nc <= 25:
+            free = [x for x in all_rects(nr, nc) if all(disjoint(x, y) for y in known)]
             if self.singles:
                 for x in free:
                     evs.append(["merge", list(x)])
-            if self.pairs_at_root and not st.rects and (self.singles or st.steps == 0):
+            if self.pairs_at_root and not known and (self.singles or st.steps == 0):
                 for i, x in enumerate(free):
                     for y in free[i + 1 :]:
                         if disjoint(x, y):
